@@ -883,6 +883,9 @@ class DocTest:
                             exc_got = traceback.format_exception_only(*exception[:2])[-1]
                             want = part.want
                             checker.check_exception(exc_got, want, runstate)
+                            # The expected traceback is this part's want, so
+                            # earlier unmatched output is consumed by it too.
+                            self._unmatched_stdout = []
                         else:
                             raise
                     else:
